@@ -150,13 +150,59 @@ def r31_33_34(ctx, fx, R):
             ctx.finding(rid3, "%s|uses-fold" % f.path, "%s does not combine its operands with fold_expressions" % f.path, f.where)
 
 
+_CHECKED = {"add": "Add", "sub": "Sub", "mul": "Mul", "div": "Div", "rem": "Rem", "shl": "Shl", "shr": "Shr"}
+
+
+def _canon(op, l, r):
+    if op in lib._FLIP:
+        op, l, r = lib._FLIP[op], r, l
+    if op in lib._COMM:
+        l, r = sorted((l, r), key=repr)
+    return (op, l, r)
+
+
+def core_op(e, subst=None):
+    """the operation an evaluator arm performs, in canonical form.  Looks through `Some(…)`, treats `a.checked_op(b)` /
+    `a.wrapping_op(b)` as `a op b`, and `conv(rhs).ok().and_then(|s| lhs.checked_shl(s))` as `lhs << rhs`."""
+    subst = subst or {}
+    e = lib.strip(e)
+    if not isinstance(e, dict):
+        return ("?",)
+    if e.get("k") == "call" and lib.pm(lib.hcallee(e), "Option::Some") and len(e["args"]) == 1:
+        return core_op(e["args"][0], subst)
+    if e.get("k") == "mcall":
+        nm = e.get("name", "")
+        for pre in ("checked_", "wrapping_"):
+            if nm.startswith(pre) and nm[len(pre):] in _CHECKED and len(e["args"]) == 1 and \
+                    (e.get("path") or "").startswith("core::num::<impl i64>::"):
+                return _canon(_CHECKED[nm[len(pre):]], _sub(lib.hdesc(e["recv"]), subst), _sub(lib.hdesc(e["args"][0]), subst))
+        if nm in ("and_then", "map") and len(e["args"]) == 1 and lib.strip(e["args"][0]).get("k") == "closure":
+            clo = lib.strip(e["args"][0])
+            if len(clo["params"]) == 1 and clo["params"][0].get("k") == "bind":
+                srcs = {lib.hpath(x) for x in lib.hwalk(e["recv"]) if x.get("k") == "path" and (x.get("res") or {}).get("dk") == "Local"}
+                convs = [lib.norm(p) for _, p in lib.hir_calls(e["recv"]) if p]
+                if len(srcs) == 1 and all(c.endswith("TryFrom::try_from") or c.endswith("Result::ok") for c in convs):
+                    s2 = dict(subst)
+                    s2[clo["params"][0]["name"]] = list(srcs)[0]
+                    return core_op(clo["body"], s2)
+    return _sub(lib.hdesc(e), subst)
+
+
+def _sub(d, subst):
+    if not subst or not isinstance(d, tuple):
+        return d
+    if d[0] == "v" and d[1] in subst:
+        return ("v", subst[d[1]])
+    return tuple(_sub(x, subst) if isinstance(x, tuple) else x for x in d)
+
+
 def r32(ctx, fx, R):
     rid = ctx.rule("R3.2", "evaluator: BinaryOp::apply_i64 performs for every variant the documented operation with operands (lhs, rhs) in order "
                    "(comparisons and &&/|| as bool→i64, i.e. 0 or 1); string + concatenates lhs then rhs, ==/!= compare; evaluate_expression passes the "
                    "value of bin.lhs as first and of bin.rhs as second argument")
     f = None
     for g in fx.all_fns("mos_core"):
-        if g.d.get("impl_self") == BOP and g.ret_ty == "i64" and g.argc == 3:
+        if g.d.get("impl_self") == BOP and g.ret_ty in ("i64", "core::option::Option<i64>") and g.argc == 3:
             f = g
     if f is None:
         ctx.fail_closed(rid, "BinaryOp::apply_i64 (fn(&BinaryOp, i64, i64) -> i64) not found")
@@ -185,9 +231,9 @@ def r32(ctx, fx, R):
         if body.get("k") == "match" and lib.hpath(body["scrut"]) == names["rhs"]:
             for ia in body["arms"]:
                 if ia["pat"].get("k") == "wild":
-                    got = lib.hdesc(ia["body"])
+                    got = core_op(ia["body"])
         else:
-            got = lib.hdesc(body)
+            got = core_op(body)
         ctx.inst(rid, k, sample={"op": tag, "evaluator": str(got)} if tag in ("-", "<=", "&&") else None)
         if got != want:
             ctx.finding(rid, k, "operator %r (%s) evaluates as %s; documented semantics is %s" % (tag, w["variant"], got, want),
@@ -311,7 +357,8 @@ def r35(ctx, fx, R):
                 ctx.finding(rid, k, "modifier %r evaluates as %s, documented: %s" % (ch, g, want), ef.where)
         # number literal → Number::value
         ctx.inst(rid, "%s|number" % ef.path)
-        if not any(True for _ in lib.hir_calls(ef.hir["body"], "Number::value")):
+        if not any(True for _ in lib.hir_calls(ef.hir["body"], "Number::value")) and \
+                not any(True for _ in lib.hir_calls(ef.hir["body"], "Number::try_value")):
             ctx.finding(rid, "%s|number" % ef.path, "number literals are not evaluated through Number::value", ef.where)
     # --- prefix flags: parser and evaluator
     pf = fx.fn("mos_core::parser::expression_factor")
@@ -388,6 +435,12 @@ def r35(ctx, fx, R):
                 if x.get("k") == "assign" and lib.strip(x["r"]).get("k") == "unary" and lib.strip(x["r"])["op"] == "Neg" and \
                         lib.hpath(x["l"]) == lib.hpath(lib.strip(x["r"])["a"]):
                     ok = True
+                # number = number.checked_neg().ok_or_else(…)?
+                if x.get("k") == "assign":
+                    tgt = lib.hpath(x["l"])
+                    for y in lib.hwalk(x["r"]):
+                        if y.get("k") == "mcall" and y.get("name") in ("checked_neg", "wrapping_neg") and lib.hpath(y["recv"]) == tgt:
+                            ok = True
         if not ok:
             ctx.finding(rid, k, "unary `-` must negate the factor's value", ev.where)
         # order: NOT before NEG
@@ -396,7 +449,12 @@ def r35(ctx, fx, R):
     # --- radix
     nf = fx.fn("mos_core::parser::number")
     ft = fx.fn("mos_core::parser::ast::Number::from_type")
-    nv = fx.fn("mos_core::parser::ast::Number::value")
+    # by role: the Number method that calls from_str_radix
+    nv = None
+    for cand in fx.all_fns("mos_core"):
+        if cand.d.get("impl_self") == "mos_core::parser::ast::Number" and cand.d.get("hir") and \
+                any(True for _ in lib.hir_calls(cand.hir["body"], "from_str_radix")):
+            nv = cand
     if not (nf and ft and nv):
         ctx.fail_closed(rid, "number parser / Number::from_type / Number::value not found")
     else:
@@ -473,6 +531,14 @@ def r35(ctx, fx, R):
         for a in (m[0]["arms"] if m else []):
             if a["pat"].get("k") == "lit":
                 bl[a["pat"]["v"]] = lib.hlit(a["body"])
+        # if data.eq_ignore_ascii_case("true") { Some(1) } …
+        for n in lib.hwalk(nv.hir["body"]):
+            if n.get("k") == "if":
+                c = lib.strip(n["cond"])
+                if c.get("k") == "mcall" and c.get("name") in ("eq_ignore_ascii_case", "eq") and isinstance(lib.hlit(c["args"][0]), str):
+                    vals = [x.get("v") for x in lib.hwalk(lib.strip(n["then"])) if x.get("k") == "lit" and x.get("lk") == "int"]
+                    if len(vals) == 1:
+                        bl[lib.hlit(c["args"][0])] = vals[0]
         for lit, val in R["bool_literals"].items():
             k = "%s|%s" % (nv.path, lit)
             ctx.inst(rid, k)
